@@ -748,6 +748,25 @@ func worker(raw json.RawMessage) (json.RawMessage, error) {
 		}
 		prefixes = append(prefixes, []byte("zz"), []byte{0xff, 0xff, 0xff})
 		scanCheck(res, "string", sk, prefixes)
+		// a family that is not prefix-closed: strings of length 1 and 3 only over three bytes,
+		// so that bounds which are prefixes of stored keys are themselves absent
+		var sp [][]byte
+		var spPrefixes [][]byte
+		for _, s := range strFamily(3) {
+			small := true
+			for _, c := range []byte(s) {
+				if c != strAlpha[0] && c != strAlpha[len(strAlpha)/2] && c != strAlpha[len(strAlpha)-1] {
+					small = false
+				}
+			}
+			if small && len(s) >= 1 && len(s) <= 2 {
+				spPrefixes = append(spPrefixes, []byte(s))
+			}
+			if small && (len(s) == 1 || len(s) == 3) {
+				sp = append(sp, []byte(s))
+			}
+		}
+		scanCheck(res, "string-sparse", sp, spPrefixes)
 		res.Sample = map[string]any{"family": "all RangeScan(start,end,inclusive) with bounds nil / every stored key / every proper prefix of a key / key+00 / key with its last byte lowered, all PrefixScans, memstore and bbolt", "ints": len(ints), "floats": len(fl), "strings": len(ss)}
 	case "vector-lengths":
 		// one vector of every length Lo..Hi (bit patterns from a counter that
@@ -774,7 +793,7 @@ func seq(a, b int) []int {
 }
 
 func master(cfg *harness.Config, rep *harness.Report) {
-	rep.Rule = "families: int64 ±2^k+δ (k<64,|δ|<=2) with all pairs; float64 all 2046 exponents x sign x 4 mantissa corners + zeros, subnormals, infinities in value order (adjacent pairs => all pairs by transitivity); all strings of length<=4 over 7 bytes; text-index term keys for all terms of length<=5 over the key marker bytes {t,s,d,a,00,ff} and the decoder on all candidate keys of length<=6; boundary uint64 ids x all 256 key suffixes; boundary uuids x 256 suffixes; edge lists of length 0..64 and 4096; float32 bit patterns (quick: 2^20 patterns with stride 4096 covering every sign/exponent and 12 mantissa bits, thorough: all 2^32) packed into vectors, plus one vector of every length 1..4096; each decoded from the encoder's buffer and from copies at every source offset 0..7; all range/prefix scans over 15-value families on memstore and bbolt, with bounds that are stored keys and bounds that are not (prefixes of keys, keys extended by 00, predecessors); thorough adds all int64 of the form v<<s (v any int32, s in {0,31}) and every non-NaN float32 widened to float64. non-trivial = sign/exponent boundary crossed between neighbours, proper sub-range scans, distinct ids"
+	rep.Rule = "families: int64 ±2^k+δ (k<64,|δ|<=2) with all pairs; float64 all 2046 exponents x sign x 4 mantissa corners + zeros, subnormals, infinities in value order (adjacent pairs => all pairs by transitivity); all strings of length<=4 over 7 bytes; text-index term keys for all terms of length<=5 over the key marker bytes {t,s,d,a,00,ff} and the decoder on all candidate keys of length<=6; boundary uint64 ids x all 256 key suffixes; boundary uuids x 256 suffixes; edge lists of length 0..64 and 4096; float32 bit patterns (quick: 2^20 patterns with stride 4096 covering every sign/exponent and 12 mantissa bits, thorough: all 2^32) packed into vectors, plus one vector of every length 1..4096; each decoded from the encoder's buffer and from copies at every source offset 0..7; all range/prefix scans over 15-value numeric families, all strings of length<=2 over 7 bytes and a string family that is not prefix-closed (lengths 1 and 3 over 3 bytes) on memstore and bbolt, with bounds that are stored keys and bounds that are not (prefixes of keys, keys extended by 00, predecessors); thorough adds all int64 of the form v<<s (v any int32, s in {0,31}) and every non-NaN float32 widened to float64. non-trivial = sign/exponent boundary crossed between neighbours, proper sub-range scans, distinct ids"
 	rep.Assumptions = []string{"values outside the families (most int64/float64 bit patterns) are covered only in the thorough sweeps stated in the rule", "native little-endian machine: the raw float32 codec is the one selected at init"}
 	var jobs []json.RawMessage
 	add := func(j job) {
